@@ -17,7 +17,7 @@ import (
 // source of a match after a Shrink. The observers are the same as for every
 // other history.
 
-var scaleAll = []string{"manyseq", "longtail", "noiserun", "longmatch", "hugeshrink", "stutter", "dense", "tandem", "ntlburst", "trickle", "hugegrow", "hugeblock", "nilburst", "noisecopy"}
+var scaleAll = []string{"manyseq", "longtail", "noiserun", "longmatch", "hugeshrink", "stutter", "dense", "tandem", "ntlburst", "trickle", "hugegrow", "hugeblock", "nilburst", "noisecopy", "maxwindow", "maxwindow", "maxwindow"}
 
 func isSA(typ string) bool { return typ == "GSAP" || typ == "OSAP" }
 
@@ -372,6 +372,42 @@ func (h *histProp) genScale(r *rand.Rand, typ string, idx int64, o gen.Opts) PCa
 		ops := []POp{{K: "write", A: 0, B: len(stream)}}
 		ops = append(ops, parses(len(stream)/c.BlockSize+2, 0, 0, 0, ntl)...)
 		pc = PCase{Cfg: c, Family: "noisecopy", Stream: stream, Ops: ops}
+	case "maxwindow":
+		// the largest legal window (and values just below it) with few hash
+		// bits on data over four letters, parsed in small blocks with
+		// NoTrailingLiterals most of the time: table entries ahead of the parse
+		// position and distances that only fit 32 bits when nothing wraps
+		c := scaleCfg(r, typ, o, 4)
+		c.WindowSize = []int{1<<32 - 8, 1<<32 - 8, 1<<32 - 8, 1<<32 - 9, 1<<32 - 200, 1<<32 - 8, 1<<32 - 16, 1 << 31}[r.Intn(8)]
+		if typ == "GSAP" && c.WindowSize > 1<<31-1 {
+			c.WindowSize = 1<<31 - 1
+		}
+		c.HashBits = 1 + r.Intn(3)
+		if typ == "HP" || typ == "BHP" || typ == "BUP" {
+			c.InputLen = 2 + r.Intn(3)
+		}
+		c.HashBits1, c.HashBits2 = 1+r.Intn(3), 2+r.Intn(3)
+		if c.InputLen2 != 0 && c.InputLen2 <= c.InputLen1 {
+			c.InputLen1, c.InputLen2 = 0, 0
+		}
+		c.BufferSize = 300 + r.Intn(1700)
+		c.ShrinkSize = r.Intn(c.BufferSize / 2)
+		c.BlockSize = 64 + r.Intn(64)
+		stream := gen.Family(r, []string{"rand3", "rand3", "rand4", "rand2"}[r.Intn(4)], 20000, c.Hint())
+		// short pieces, each parsed to its end with NoTrailingLiterals before
+		// the next one arrives (the block is larger than the piece: the first
+		// call hashes every position of it and hands most of them back)
+		var ops []POp
+		for len(ops) < 900 {
+			ops = append(ops, POp{K: "write", A: 0, B: 12 + r.Intn(44)})
+			for j := 0; j < 7; j++ {
+				ops = append(ops, POp{K: "parse", A: []int{ntl, ntl, ntl, ntl, 0}[r.Intn(5)]})
+			}
+			if r.Intn(6) == 0 {
+				ops = append(ops, POp{K: "shrink"})
+			}
+		}
+		pc = PCase{Cfg: c, Family: "maxwindow", Stream: stream, Ops: ops}
 	case "zeroshrink":
 		// a prefix of non-zero bytes, a few zero bytes, then a run of one byte:
 		// parsed in small blocks, and Shrink is called exactly when it makes
